@@ -67,6 +67,17 @@ def handle : List String → String
       if params.isEmpty || params.any (fun p => p.length != kinds.length) then "bad-op"
       else showResult (execInsertMulti kinds params)
     | _, _ => "bad-op"
+  | ["pk", kind, sup, bits] =>
+    let k? : Option PkKind := match kind with
+      | "autoinc" => some .autoinc | "pydefault" => some .pydefault
+      | "sqlexpr" => some .sqlexpr | "plain" => some .plain | _ => none
+    let bs := bits.toList.map (· == '1')
+    match k?, bs with
+    | some k, [a, b, c, d, e, f, g, h, i, j] =>
+      let p := pkPlan k (sup == "1" || sup == "2") ⟨a, b, c, d, e, f, g, h, i, j⟩ (sup == "2")
+      let bit := fun (x : Bool) => if x then "1" else "0"
+      "ok " ++ bit p.inStatement ++ bit p.bound ++ bit p.prefetch ++ bit p.inlineSql ++ bit p.inReturning ++ bit p.lastrowid
+    | _, _ => "bad-op"
   | ["update", ks, ps, os] =>
     match parseKinds? ks, parseParams? ps, parseRows? os with
     | some kinds, some params, some olds =>
